@@ -81,11 +81,11 @@ func newCasesFile() *lib.CasesFile {
 // defaults, what the attributes of the deserialized value are)
 func acaseGallina(mv *MV, obs string) string {
 	var b strings.Builder
-	fmt.Fprintf(&b, "(%d%%nat, ", mv.Req)
+	fmt.Fprintf(&b, "(mkacase %d%%nat ", mv.Req)
 	mv.attrList(&b)
-	b.WriteString(", ")
+	b.WriteString(" ")
 	mv.declList(&b)
-	b.WriteString(", " + obs + ")")
+	b.WriteString(" " + obs + ")")
 	return b.String()
 }
 
@@ -272,7 +272,7 @@ func (ck *checker) checkValue(root px.Context, spec *Spec, registered bool, cfgs
 						ac = "(Some " + acaseGallina(mv, obs) + ")"
 						res.Count("attribute-route.cases-in-coq")
 					}
-					ck.file(family).Add("("+caseGallina(mv, cfg, out, resM)+", "+ac+")", in)
+					ck.file(family).Add("X "+caseGallina(mv, cfg, out, resM)+" "+ac, in)
 					ck.coqCfgs[cfg] = true
 				}
 			}
